@@ -13,7 +13,7 @@ THEOREMS = ['Otel.C02.' + t for t in (
     'shutdown_blocked_only_by',
     # progress (Props/C02Live.lean): a rank the worker lowers with every transition until the newest ticket is served
     'flush_served_within', 'rank_decreases', 'served_flusher_returns_true', 'queue_within_capacity',
-    'worker_terminates_within', 'rank2_decreases', 'join_enabled_when_done')] + ['Otel.Batch.reachable_inv', 'Otel.Batch.inv_astep', 'Otel.Batch.served_of_wcount', 'Otel.Batch.done_of_wcount']
+    'worker_terminates_within', 'worker_terminates', 'rank2_decreases', 'join_enabled_when_done')] + ['Otel.Batch.reachable_inv', 'Otel.Batch.inv_astep', 'Otel.Batch.served_of_wcount', 'Otel.Batch.done_of_wcount']
 THEOREMS = THEOREMS + RD.THEOREMS_C02 + RD.THEOREMS_C02_LIVE
 HARNESSES = [B.H_BSP, B.H_BLP] + RD.HARNESSES
 SUBS = [importlib.import_module('props.' + n) for n in ('c02_fanout',) if os.path.exists(os.path.join(os.path.dirname(__file__), n + '.py'))]
